@@ -48,8 +48,25 @@ SkyVerdict(r) ==
   IN IF r.out = SkyMask(r.ivar, flags, r.ngrow, r.tbl) THEN ""
      ELSE "skymask: inverse variance not zeroed exactly on the dilated flagged pixels"
 
+(* ---- the same call in two memory layouts (section 6): r.a, r.b = abstracted outcomes ---- *)
+LayoutVerdict(r) ==
+  IF r.a.err \/ r.b.err THEN "layout: raised an exception in one of the two layouts"
+  ELSE IF ~LayoutIndependent(r.a, r.b) THEN "layout: outcome depends on the memory layout of the arguments"
+  ELSE ""
+(* ---- djs_reject on rank >= 2 data, all points eligible, no previous mask: grow = 0 in the   *)
+(* plain layout (r.rej0), grow = r.grow in two layouts (r.a, r.b: rejected positions, qdone)   *)
+RejNDVerdict(r) ==
+  IF r.a.err \/ r.b.err THEN "reject N-d: raised an exception"
+  ELSE IF ~LayoutIndependent(r.a, r.b) THEN "reject N-d: mask / completion depend on the memory layout of data"
+  ELSE IF ~GrowSupersetOK(r.shape, r.grow, ToSet(r.rej0), ToSet(r.a.out))
+       THEN "reject N-d: grow does not reject a (strict) superset of what grow = 0 rejects"
+  ELSE IF r.a.qdone # (r.a.out = <<>>) THEN "reject N-d: completion flag differs from (mask unchanged)"
+  ELSE ""
+
 Verdict(r) ==
-  IF r.err THEN "raised an exception"
+  IF r.kind = "layout" THEN LayoutVerdict(r)
+  ELSE IF r.kind = "rejnd" THEN RejNDVerdict(r)
+  ELSE IF r.err THEN "raised an exception"
   ELSE IF ~r.exact THEN "result not representable (non-finite or not a small rational)"
   ELSE CASE r.kind = "reject" -> RejVerdict(r)
          [] r.kind = "interp" -> InterpVerdict(r)
